@@ -18,7 +18,7 @@ func init() {
 	run.Register(&run.Property{
 		ID:    "C11",
 		Title: "R-tree searches are exact, ordered, and stop when told to",
-		Rule: "cases = (layout, size n, PRNG stream): n items with quarter-integer coordinates |c|<=2^12 bulk-loaded; sizes 0..40 exhaustively x 8 layouts, then sampled sizes at fan-out boundaries up to 5000; " +
+		Rule: "[added in rounds 9-11: huge layout (magnitudes 1e150..1e300) and arithmetic-independent prio-complete/nearest on the inexact layouts] cases = (layout, size n, PRNG stream): n items with quarter-integer coordinates |c|<=2^12 bulk-loaded; sizes 0..40 exhaustively x 8 layouts, then sampled sizes at fan-out boundaries up to 5000; " +
 			"each case runs range queries (own boxes, degenerate, enclosing, disjoint, edge/corner touching), priority searches and callback-protocol injections (continue/Stop/wrapped Stop/error at position k) against a linear scan. " +
 			"non-trivial = tree with depth >= 2 (n > 4); distinct by (layout, n, item multiset hash)",
 		Assumptions: []string{
